@@ -14,6 +14,20 @@ type Request struct {
 	Files     []*File  `json:"files"`
 	Generate  []string `json:"generate"`
 	Parameter string   `json:"parameter,omitempty"`
+	// Primary names the generated file the harness builds a runner for and judges (default: the
+	// first entry of Generate). Not part of what a plugin sees.
+	Primary string `json:"primary,omitempty"`
+}
+
+// PrimaryName is the file the harness serves / judges: Primary, else the first file to generate.
+func (r *Request) PrimaryName() string {
+	if r.Primary != "" {
+		return r.Primary
+	}
+	if len(r.Generate) > 0 {
+		return r.Generate[0]
+	}
+	return ""
 }
 
 type File struct {
